@@ -17,7 +17,7 @@ import coqio as C
 
 PROP = "C14"
 RULE = ("coolers with 1, 6 and 8 bins (1-3 chromosomes, an extra integer and a float bin column), enum and plain-integer chromosome "
-        "encodings; selectors chroms/bins/pixels: every (start, stop) in {None} u [-n, n] x column subsets (all, one name -> Series, "
+        "encodings; selectors chroms/bins/pixels: every (start, stop) in {None} u [-n, n] u {beyond both ends: n+1, n+5, 10^6, -n-1, -n-4, -10^6} x column subsets (all, one name -> Series, "
         "lists of one and two) plus every scalar in [-n-1, n]; annotate: pixel selections (empty, single, all, reversed, with repeats, "
         "random sizes below/at/above the bin count) x bin argument (whole frame, selector, column-restricted selector, EVERY contiguous "
         "partial view, containing the needed bins or not) x replace; non-trivial = non-empty row range / non-empty pixel selection; "
@@ -25,7 +25,7 @@ RULE = ("coolers with 1, 6 and 8 bins (1-3 chromosomes, an extra integer and a f
 TRUSTED = ["h5py raw reads of the table columns (model input and oracle reference)",
            "pandas .loc slicing on a monotonic integer index is end-inclusive and tolerant of absent bounds; .iloc with negative positions wraps (both modelled, both exercised)"]
 ASSUMPTIONS = ["table cells are compared as integers (chromosome names through their codes); float columns are checked by the oracle only"]
-RESIDUE = ["slice bounds outside [-n, n] and annotate with a view that does not contain the needed bins are outside the claim (the model still predicts them; compared, not judged)"]
+RESIDUE = ["annotate with a view that does not contain the needed bins are outside the claim (the model still predicts them; compared, not judged)"]
 
 FIELD_IDS = {"chrom": 0, "start": 1, "end": 2, "extra": 3, "bin1_id": 10, "bin2_id": 11, "count": 12, "length": 20, "namecode": 21}
 
@@ -104,9 +104,9 @@ def run_selectors(ctx, path, raw, label):
         n = len(next(iter(rawtab.values())))
         # every column alone as a string (-> Series), singleton and two-column lists, and all columns
         subsets = [None] + list(allf) + [[allf[0]], [allf[-1], allf[0]] if len(allf) == 2 else [allf[-1], allf[1]]]
-        bounds = [None] + list(range(-n, n + 1))
+        bounds = [None] + list(range(-n, n + 1)) + [n + 1, n + 5, 10 ** 6, -n - 1, -n - 4, -10 ** 6]   # beyond the ends: clamped like any sequence
         if n > 9:
-            bounds = [None, -n, -n + 1, -3, -1, 0, 1, 2, n // 2, n - 1, n]
+            bounds = [None, -n, -n + 1, -3, -1, 0, 1, 2, n // 2, n - 1, n, n + 1, n + 7, 10 ** 6, -n - 2, -10 ** 6]
         for fs in subsets:
             sel = mk() if fs is None else mk()[fs]
             fields = allf if fs is None else ([fs] if isinstance(fs, str) else fs)
@@ -138,7 +138,7 @@ def run_selectors(ctx, path, raw, label):
                     flist = C.zl([FIELD_IDS.get(f, 30 + allf.index(f)) for f in ints])
                     exprs.append(f"selector_slice {tab} {C.z(n)} {flist} {C.opt(a, C.z)} {C.opt(b_, C.z)}")
                     pending.append((case, (got[0], [(FIELD_IDS.get(f, 30 + allf.index(f)), got[1][f]) for f in ints])))
-            for s in range(-n - 1, n + 1):
+            for s in list(range(-n - 2, n + 2)) + [-10 ** 6, 10 ** 6]:
                 case = {"cooler": label, "table": tname, "fields": fs, "scalar": s}
                 ctx.case(case, kind=f"selector-scalar:{tname}")
                 try:
@@ -152,7 +152,7 @@ def run_selectors(ctx, path, raw, label):
                     exp = oracle_rows(rawtab, s % n, s % n + 1, fields)
                     if got is None or got[0] != exp[0] or {k: got[1].get(k) for k in fields} != exp[1]:
                         ctx.fail(case, {"got": got, "outcome": out, "expected": exp}, None)
-                elif s >= n and out != "IndexError":
+                elif out != "IndexError":      # beyond either end (below -n: regression input of D33)
                     ctx.fail(case, {"outcome": out, "expected": "IndexError"}, None)
     # keyword variants of the table getters (oracle only): integer chromosome codes, dict output
     nb = len(raw["bins"]["start"])
